@@ -375,6 +375,23 @@ def rule_g(ctx, idx, A):
     ctx.ob("C01.g", con, K.rel(fi), line, ok, why)
 
 
+def rule_h(ctx, idx, A, rule="C01.h"):
+    ctx.rule(
+        rule,
+        "References are resolved when the graph is evaluated, never while it is loaded: nothing that from_source / add_command "
+        "reaches consults the command table by a name other than the one the new command is stored under (a consumer written "
+        "before its producer must load exactly like one written after it).",
+    )
+    bad, seen = coverage.load_time_queries(idx, A)
+    for fi, n, key in bad:
+        ctx.violate(rule, "%s::load-time-lookup(%s)" % (fi.key, key), K.rel(fi), n.lineno,
+                    "`%s` consults the command table by `%s` while the program is being loaded: whether a reference resolves now depends on the textual order of the commands" % (K.src(n)[:70], key))
+    if not bad:
+        ctx.hold(rule, "%s::no-load-time-lookup" % A.program.methods["add_command"].key, "mpilot/program.py", A.program.methods["add_command"].node.lineno,
+                 "%d by-name consultation(s) while loading, all on the new command's own result name" % seen)
+    ctx.floor(rule, "by-name consultations of the command table while loading (the duplicate check)", seen, 1)
+
+
 def run(ctx, idx):
     A = K.anchors(idx)
     ctx.assume("Python semantics of attribute stores, properties and exceptions as modelled by the CFG builder")
@@ -388,5 +405,6 @@ def run(ctx, idx):
     rule_e(ctx, idx, A)
     rule_f(ctx, idx, A)
     rule_g(ctx, idx, A)
+    rule_h(ctx, idx, A)
     ctx.count("modules", len(idx.modules))
     ctx.count("functions", len(idx.funcs))
